@@ -452,6 +452,16 @@ def _codec(body):
                 P("fetch:same-name-and-length", fi.name() == instr.name() and fi.length() == instr.length(), f"{fi.name()}/{fi.length()} vs {instr.name()}/{instr.length()}")
             if outcome in ("reject", "assert", "invalid"):
                 P("fetch:placeholder-when-rejected", fi.name() == f"UNK_{lead[0]:02X}" and fi.length() == 1, f"{fi.name()}/{fi.length()}")
+        mem2 = {0x1000 + k: x for k, x in enumerate((0x08, 0x55, 0x00, 0x00, 0x00, 0x00, 0x00, 0x00, 0x00, 0x00))}
+        emu2 = EMU.Emulator(EMU.Memory(lambda a: mem2.get(a, 0), lambda a, v: mem2.__setitem__(a, v)), reset_on_init=False)
+        for at in (0x1000, 0x1001, 0x1002):
+            hook(lambda: emu2.decode_instruction(at))
+        for i, x in enumerate(data):
+            mem2[0x1000 + i] = x
+        s_h, hi = hook(lambda: emu2.decode_instruction(0x1000))
+        if s_f == "ok":
+            P("fetch:after-history", s_h == "ok" and hi.name() == fi.name() and hi.length() == fi.length(),
+              f"an Emulator that decoded 'MV A,55; NOP' before decodes {data.hex()} as {hi.name() + '/' + str(hi.length()) if s_h == 'ok' else repr(hi)}, a fresh one as {fi.name()}/{fi.length()}")
         if want == "C01":
             for cut in range(0, CD.FULL):
                 s_c, ic = hook(lambda: arch.get_instruction_info(data[:cut], addr))
